@@ -550,6 +550,9 @@ func (e *SpecEnv) resolveType(s string) (types.Type, string) {
 }
 
 func (e *SpecEnv) evalQuant(n *SQuant) Value {
+	if n.Kind == "sum" || n.Kind == "count" {
+		return e.evalSum(n)
+	}
 	u := e.u
 	saved := e.bound
 	nb := map[string]Value{}
@@ -572,6 +575,7 @@ func (e *SpecEnv) evalQuant(n *SQuant) Value {
 				v := Term{qsym(name), SInt}
 				e.bound[n.Vars[0].Name] = Sc{v, types.Typ[types.Int]}
 				decls = append(decls, fmt.Sprintf("(%s Int)", v.S))
+				u.ctx.noteQVar(v.S, SInt)
 				guard = And(Cmp(">=", v, TZero), Cmp("<", v, sl.Len))
 				goto body
 			}
@@ -585,6 +589,7 @@ func (e *SpecEnv) evalQuant(n *SQuant) Value {
 				v := Term{qsym(name), ks}
 				e.bound[n.Vars[0].Name] = Sc{v, nil}
 				decls = append(decls, fmt.Sprintf("(%s %s)", v.S, ks))
+				u.ctx.noteQVar(v.S, ks)
 				guard = Select(csc.T, v)
 			} else {
 				m, isMap := csc.Typ.Underlying().(*types.Map)
@@ -595,6 +600,7 @@ func (e *SpecEnv) evalQuant(n *SQuant) Value {
 				v := Term{qsym(name), ks}
 				e.bound[n.Vars[0].Name] = Sc{v, m.Key()}
 				decls = append(decls, fmt.Sprintf("(%s %s)", v.S, ks))
+				u.ctx.noteQVar(v.S, ks)
 				guard = And(Neq(csc.T, TNil), Select(u.mapDom(e.st.View(), csc.Typ, csc.T), v))
 			}
 		}
@@ -605,6 +611,7 @@ func (e *SpecEnv) evalQuant(n *SQuant) Value {
 			name := fmt.Sprintf("%s!q%d", qv.Name, u.ctx.freshN)
 			v := Term{qsym(name), s}
 			e.bound[qv.Name] = Sc{v, t}
+			u.ctx.noteQVar(v.S, s)
 			decls = append(decls, fmt.Sprintf("(%s %s)", v.S, s))
 		}
 	}
@@ -685,6 +692,22 @@ func (e *SpecEnv) evalCall(n *SCall) Value {
 	case "dom":
 		m := e.scalar(n.Args[0])
 		return Sc{u.mapDom(e.st.View(), m.Typ, m.T), nil}
+	case "with", "without":
+		// with(S, k) / without(S, k): the key set S plus / minus the key k (S: a key set or a map)
+		sv := e.scalar(n.Args[0])
+		st := sv.T
+		if !strings.HasPrefix(st.Sort, "(Array") {
+			if sv.Typ == nil {
+				e.fail("%s: first argument must be a key set or a map", n.Fun)
+			}
+			if _, isMap := sv.Typ.Underlying().(*types.Map); !isMap {
+				e.fail("%s: first argument must be a key set or a map", n.Fun)
+			}
+			st = u.mapDom(e.st.View(), sv.Typ, sv.T)
+		}
+		k := e.scalar(n.Args[1])
+		u.noteSumKey(arrKey(st.Sort), k.T)
+		return Sc{Store(st, u.coerce(k.T, arrKey(st.Sort)), Term{map[string]string{"with": "true", "without": "false"}[n.Fun], SBool}), nil}
 	case "fresh":
 		if sl, ok := e.eval(n.Args[0]).(SliceV); ok {
 			return Sc{And(Neq(sl.Arr, TNil), Cmp(">=", app("objof", SInt, sl.Arr), e.old.allocTerm()), Cmp("<", app("objof", SInt, sl.Arr), e.st.allocTerm())), tb}
